@@ -20,12 +20,16 @@ package ast
 //@   skipfield mutex a copy gets its own, unlocked mutex
 //@ fields_copied (*Matrix).DeepCopy               [C08]
 
+//@ nonnil elem:*github.com/go-task/task/v3/taskfile/ast.Glob elem:*github.com/go-task/task/v3/taskfile/ast.Platform elem:*github.com/go-task/task/v3/taskfile/ast.VarsWithValidation
+
 // ---- C16: no YAML document makes a decoder panic (zero-annotation safety sweep) -------------------
 // "sweep" generates index, slice-bounds, nil-dereference, type-assertion, division and explicit-panic
 // obligations from the SSA of the function; the only annotations are loop invariants.
 
 //@ func (*Cmd).UnmarshalYAML
 //@   sweep                                                         [C16]
+//@   requires forall i :: 0 <= i && i < len(c.Platforms) ==> c.Platforms[i] != nil
+//@   ensures  result == nil ==> forall i :: 0 <= i && i < len(c.Platforms) ==> c.Platforms[i] != nil          [C16]
 //@ func (*Defer).UnmarshalYAML
 //@   sweep                                                         [C16]
 //@ func (*Dep).UnmarshalYAML
@@ -52,8 +56,19 @@ package ast
 //@   sweep                                                         [C16]
 //@ func (*VarsWithValidation).UnmarshalYAML
 //@   sweep                                                         [C16]
+// Data invariant relied on by every consumer of a decoded task (declared below as "nonnil elem"): the
+// glob, platform and required-variable lists never contain nil. The decoder is its producer.
 //@ func (*Task).UnmarshalYAML
 //@   sweep                                                         [C16]
+//@   requires forall i :: 0 <= i && i < len(t.Sources) ==> t.Sources[i] != nil
+//@   requires forall i :: 0 <= i && i < len(t.Generates) ==> t.Generates[i] != nil
+//@   requires forall i :: 0 <= i && i < len(t.Platforms) ==> t.Platforms[i] != nil
+//@   requires t.Requires != nil ==> forall i :: 0 <= i && i < len(t.Requires.Vars) ==> t.Requires.Vars[i] != nil
+//@   ensures  result == nil ==> forall i :: 0 <= i && i < len(t.Sources) ==> t.Sources[i] != nil              [C16]
+//@   ensures  result == nil ==> forall i :: 0 <= i && i < len(t.Generates) ==> t.Generates[i] != nil          [C16]
+//@   ensures  result == nil ==> forall i :: 0 <= i && i < len(t.Platforms) ==> t.Platforms[i] != nil          [C16]
+//@   ensures  result == nil && t.Requires != nil ==>
+//@            forall i :: 0 <= i && i < len(t.Requires.Vars) ==> t.Requires.Vars[i] != nil                    [C16]
 //@ func (*Taskfile).UnmarshalYAML
 //@   sweep                                                         [C16]
 //@ func (*Tasks).UnmarshalYAML
